@@ -2255,6 +2255,97 @@ def check_dupcont(facts):
     return r
 
 
+# ---- APIENTRY -------------------------------------------------------------------------------
+
+def check_apientry(facts):
+    r = RuleResult("APIENTRY", "what the user writes is what gets compiled: (a) the string constructors of api::Regex (`new`, `with_flags`) hand "
+                               "the caller's pattern to the parser as it is — the only thing done to it is `chars()` (no trimming, prefix "
+                               "stripping, replacing or case change: a stripped U+FEFF is an ordinary pattern character that `escape` left "
+                               "intact); (b) `Flags::new` turns each flag letter into exactly one field — the edge taken for one letter stores "
+                               "to one field of the Flags under construction (an implied second flag set there exists only for flags that "
+                               "came as a string, not for a `Flags` struct built by the caller); (c) in parse.rs a character is not pushed onto "
+                               "a buffer under a test of that buffer's length (silent truncation: an over-long property name is looked up by its prefix)")
+    n = 0
+    for fn in ("api::Regex::with_flags", "api::Regex::new"):
+        if not facts.has_body(fn):
+            r.error("anchor %s not found" % fn)
+            continue
+        b = facts.body(fn)
+        pats = [l for l in range(1, b.argc + 1) if b.local_ty(l).replace(" ", "") == "&str"]
+        key = "%s passes the pattern on unchanged" % fn
+        bad = []
+        for bb, t in b.iter_calls():
+            for ai, a in enumerate(t["args"]):
+                if a.get("k") in ("copy", "move") and b.root_of(a["pl"]["l"])[0] in pats:
+                    last = (t.get("callee") or "").split("::")[-1]
+                    n += 1
+                    if last not in ("chars", "with_flags", "from_unicode", "into", "as_ref", "borrow", "deref"):
+                        bad.append("`%s` (line %s)" % (last, t.get("line")))
+        if bad:
+            r.fail(key, "the pattern is passed through %s before it reaches the parser: the compiled regex no longer denotes the string the "
+                        "caller gave (escape(s) for an s starting with U+FEFF matches s without its first character)" % ", ".join(bad), facts.loc(fn))
+        else:
+            r.ok(key)
+    r.floor("pattern_uses_in_the_string_constructors", n, 2)
+    fn = "api::Flags::new"
+    if not facts.has_body(fn):
+        r.error("anchor %s not found" % fn)
+    else:
+        b = facts.body(fn)
+        dom = b.dom()
+        ne = 0
+        for bi in sorted(b.reachable()):
+            t = b.blocks[bi]["t"]
+            if t["k"] != "switch" or t.get("dty") != "char":
+                continue
+            for v, tg in t["targets"]:
+                region = {x for x in b.reachable() if x == tg or tg in dom[x]}
+                flds = set()
+                for x in region:
+                    for st in b.blocks[x]["s"]:
+                        if st["k"] == "assign" and st["pl"]["p"] and "Flags" in b.local_ty(b.root_of(st["pl"]["l"])[0]):
+                            flds |= set(core.proj_fields(st["pl"])[-1:])
+                ne += 1
+                key = "api::Flags::new letter %r sets one flag" % chr(v)
+                if len(flds) == 1:
+                    r.ok(key, sorted(flds)[0])
+                else:
+                    r.fail(key, "the arm for the flag letter %r stores to %s: one letter, one flag — an implication wired in here holds only "
+                                "for flags parsed from a string, while the parser is also handed `Flags` structs built field by field" % (
+                                    chr(v), sorted(flds) or "no field"), facts.loc(fn, t.get("line")))
+        r.floor("flag_letters", ne, 5)
+    # (c)
+    for fn in sorted(facts.body_names()):
+        if not fn.startswith("parse::") or "::tests::" in fn:
+            continue
+        b = facts.body(fn)
+        dom = None
+        for bb, t in b.iter_calls():
+            if not (t.get("callee") or "").endswith("String::push") or not t["args"] or t["args"][0].get("k") not in ("copy", "move"):
+                continue
+            buf = b.root_of(t["args"][0]["pl"]["l"])[0]
+            dom = dom or b.dom()
+            for sb in dom[bb]:
+                ts = b.blocks[sb]["t"]
+                if ts["k"] != "switch" or ts["discr"].get("k") not in ("copy", "move"):
+                    continue
+                d = b.single_def(ts["discr"]["pl"]["l"])
+                if not d or d[2] != "assign" or d[3]["rv"]["k"] != "bin" or d[3]["rv"]["op"] not in ("Lt", "Le", "Gt", "Ge"):
+                    continue
+                for o in (d[3]["rv"]["a"], d[3]["rv"]["b"]):
+                    if o.get("k") in ("copy", "move"):
+                        dl = b.single_def(o["pl"]["l"])
+                        if dl and dl[2] == "call" and (dl[3].get("callee") or "").split("::")[-1] == "len" and dl[3]["args"] and \
+                                dl[3]["args"][0].get("k") in ("copy", "move") and b.root_of(dl[3]["args"][0]["pl"]["l"])[0] == buf:
+                            r.fail("%s pushes under a length test of the buffer" % re.sub(r"::\{closure#\d+\}", "", fn),
+                                   "a character is appended to `%s` only while the buffer is shorter than a bound (line %s): the rest of the "
+                                   "text is consumed and dropped, so an over-long name is accepted by its prefix "
+                                   "(`\\p{Default_Ignorable_Code_Points}`)" % (b.local_name(buf) or "the buffer", t.get("line")),
+                                   facts.loc(fn, t.get("line")))
+    r.ok("parse.rs appends consumed characters unconditionally")
+    return r
+
+
 # ---- MONOID ---------------------------------------------------------------------------------
 
 def check_monoid(facts):
